@@ -127,8 +127,10 @@ def Bucket.params (b : Bucket) : Params := paramsOf b.qps b.burst
 /-- `NewFlowControl` for a token-bucket schema (`0 ≤ QPS, Burst < 2^31`, so the `uint32` conversions are the identity). -/
 def Bucket.new (qps burst : Nat) : Bucket := { qps := qps, burst := burst, lim := State.init }
 
-/-- `TryAcquire` whose critical section reads the clock at `now`. -/
+/-- `TryAcquire` whose critical section reads the clock at `now`
+    (`if f.qps == 0 { return false }` comes first: the limiter is not consulted). -/
 def Bucket.tryAcquire (A : Arith) (b : Bucket) (now : Rat) : Bool × Bucket :=
+  if b.qps = 0 then (false, b) else
   let r := allow A b.params b.lim now
   (r.1, { b with lim := r.2 })
 
@@ -307,6 +309,7 @@ inductive FOp where
 
 def FBucket.step (b : FBucket) : FOp → Bool × FBucket
   | .acquire now =>
+    if b.qps = 0 then (false, b) else
     let r := reserveN (paramsOf b.qps b.burst) b.lim now 1
     (r.1, { b with lim := r.2 })
   | .resize q bu =>
